@@ -111,10 +111,10 @@ def parse_step_obs(chk, tag, states=range(0, 16), checks="none", callbacks=False
         add(7, "FUNC", 0)
     if 8 in S:
         for na in (0, 1, 2):
-            add(8, "FUNC", 0, nargs=na)
+            add(8, "FUNC", 0, nargs=na, extra=("TRACK_CALLOC",))
     if 9 in S:
         for na in (1, 2):
-            add(9, "FUNC", 0, nargs=na)
+            add(9, "FUNC", 0, nargs=na, extra=("TRACK_CALLOC",))
     for st in (10, 11, 12, 13, 14, 15):
         if st in S:
             for nested in (False, True):
